@@ -226,32 +226,10 @@ def has_cycle(case):
 # ------------------------------------------------------------------------------------------------
 # the oracle: meaning of a sheet
 def url_regions(u, nested, ctx):
-    """known-finding regions that apply to this url() occurrence (used only to explain a mismatch)"""
-    if ctx['depth'] == 0:
-        return frozenset()
-    try:
-        sp = up.urlsplit(u)
-    except ValueError:
-        return frozenset(['unsplittable'])
-    if sp.scheme:
-        return frozenset()
-    if sp.netloc or sp.path.startswith('/'):
-        # a scheme-relative or root-relative URL is kept as it is: right unless the sheet came from another origin
-        return frozenset(['C19-rebase-other-origin']) if ctx['origin_change'] else frozenset()
-    out = set()
-    if nested:
-        out.add('C19-url-in-function')
-    if ctx['origin_change']:
-        out.add('C19-rebase-other-origin')
-    if sp.path == '':
-        out.add('C19-rebase-same-document')
-    else:
-        last = sp.path.split('/')[-1]
-        if last in ('', '.', '..'):
-            out.add('C19-rebase-trailing-slash')
-        if set(sp.path) & RESERVED:
-            out.add('C19-rebase-reserved-chars')
-    return frozenset(out)
+    """known-finding regions that apply to this url() occurrence (used only to explain a mismatch).
+    The re-basing findings (same-document references, other origin, trailing slash, reserved characters, url() in
+    function arguments) are fixed: no region is left, every URL that resolves differently is a violation."""
+    return frozenset()
 
 
 class Meaning:
@@ -272,7 +250,9 @@ class Meaning:
         for c in cs:
             if c[0] == 'u':
                 try:
-                    a = norm_abs(up.urljoin(href, c[1]))
+                    # RFC 3986 5.2.2: an empty reference is the base without its fragment (urljoin hands the base
+                    # back unchanged, fragment included)
+                    a = norm_abs(up.urljoin(href, c[1]) if c[1] else up.urldefrag(href)[0])
                 except ValueError:
                     a = 'unjoinable:' + c[1]
                 out.append(('u', a, url_regions(c[1], nested, ctx)))
